@@ -1,5 +1,5 @@
 use crate::interface::config::GenerateConfig;
-use crate::models::{CommandInfo, StructInfo};
+use crate::models::{CommandInfo, EventInfo, StructInfo, ValidatorAttributes};
 use serde::{Deserialize, Serialize};
 use std::collections::HashMap;
 use std::fs;
@@ -43,7 +43,22 @@ impl GenerationCache {
         structs: &HashMap<String, StructInfo>,
         config: &GenerateConfig,
     ) -> Result<Self, CacheError> {
-        let commands_hash = Self::hash_commands(commands)?;
+        Self::new_with_events(commands, structs, &[], config)
+    }
+
+    /// Create a new cache from current generation state, including the discovered events
+    /// (events.ts is generated from them, so they are part of what the cache vouches for)
+    pub fn new_with_events(
+        commands: &[CommandInfo],
+        structs: &HashMap<String, StructInfo>,
+        events: &[EventInfo],
+        config: &GenerateConfig,
+    ) -> Result<Self, CacheError> {
+        let commands_hash = format!(
+            "{}{}",
+            Self::hash_commands(commands)?,
+            Self::hash_events(events)?
+        );
         let structs_hash = Self::hash_structs(structs)?;
         let config_hash = Self::hash_config(config)?;
         let combined_hash = Self::combine_hashes(&commands_hash, &structs_hash, &config_hash)?;
@@ -86,6 +101,17 @@ impl GenerationCache {
         structs: &HashMap<String, StructInfo>,
         config: &GenerateConfig,
     ) -> Result<bool, CacheError> {
+        Self::needs_regeneration_with_events(output_dir, commands, structs, &[], config)
+    }
+
+    /// Check if generation is needed, taking the discovered events into account
+    pub fn needs_regeneration_with_events<P: AsRef<Path>>(
+        output_dir: P,
+        commands: &[CommandInfo],
+        structs: &HashMap<String, StructInfo>,
+        events: &[EventInfo],
+        config: &GenerateConfig,
+    ) -> Result<bool, CacheError> {
         // Try to load previous cache
         let previous_cache = match Self::load(&output_dir) {
             Ok(cache) => cache,
@@ -101,10 +127,30 @@ impl GenerationCache {
         }
 
         // Generate current cache
-        let current_cache = Self::new(commands, structs, config)?;
+        let current_cache = Self::new_with_events(commands, structs, events, config)?;
 
         // Compare combined hashes
         Ok(previous_cache.combined_hash != current_cache.combined_hash)
+    }
+
+    /// Check that every file a generation run writes is still present in the output
+    /// directory: a matching hash says nothing about files deleted since
+    pub fn outputs_present<P: AsRef<Path>>(
+        output_dir: P,
+        has_events: bool,
+        visualize_deps: bool,
+    ) -> bool {
+        let mut expected = vec!["types.ts", "commands.ts", "index.ts"];
+        if has_events {
+            expected.push("events.ts");
+        }
+        if visualize_deps {
+            expected.push("dependency-graph.txt");
+            expected.push("dependency-graph.dot");
+        }
+        expected
+            .iter()
+            .all(|file| output_dir.as_ref().join(file).is_file())
     }
 
     /// Get the cache file path
@@ -123,6 +169,7 @@ impl GenerationCache {
             return_type: &'a str,
             is_async: bool,
             channels: Vec<ChannelHashData<'a>>,
+            serde_rename_all: Option<String>,
         }
 
         #[derive(Serialize)]
@@ -130,12 +177,14 @@ impl GenerationCache {
             name: &'a str,
             rust_type: &'a str,
             is_optional: bool,
+            serde_rename: Option<&'a str>,
         }
 
         #[derive(Serialize)]
         struct ChannelHashData<'a> {
             parameter_name: &'a str,
             message_type: &'a str,
+            serde_rename: Option<&'a str>,
         }
 
         let hash_data: Vec<CommandHashData> = commands
@@ -150,6 +199,7 @@ impl GenerationCache {
                         name: &p.name,
                         rust_type: &p.rust_type,
                         is_optional: p.is_optional,
+                        serde_rename: p.serde_rename.as_deref(),
                     })
                     .collect(),
                 return_type: &cmd.return_type,
@@ -160,8 +210,30 @@ impl GenerationCache {
                     .map(|c| ChannelHashData {
                         parameter_name: &c.parameter_name,
                         message_type: &c.message_type,
+                        serde_rename: c.serde_rename.as_deref(),
                     })
                     .collect(),
+                serde_rename_all: cmd.serde_rename_all.map(|rule| format!("{:?}", rule)),
+            })
+            .collect();
+
+        let json = serde_json::to_string(&hash_data)?;
+        Ok(Self::compute_hash(&json))
+    }
+
+    /// Generate a deterministic hash of the discovered events (name and payload type)
+    fn hash_events(events: &[EventInfo]) -> Result<String, CacheError> {
+        #[derive(Serialize)]
+        struct EventHashData<'a> {
+            event_name: &'a str,
+            payload_type: &'a str,
+        }
+
+        let hash_data: Vec<EventHashData> = events
+            .iter()
+            .map(|event| EventHashData {
+                event_name: &event.event_name,
+                payload_type: &event.payload_type,
             })
             .collect();
 
@@ -177,6 +249,7 @@ impl GenerationCache {
             file_path: &'a str,
             is_enum: bool,
             fields: Vec<FieldHashData<'a>>,
+            serde_rename_all: Option<String>,
         }
 
         #[derive(Serialize)]
@@ -185,6 +258,9 @@ impl GenerationCache {
             rust_type: &'a str,
             is_optional: bool,
             is_public: bool,
+            // Keys, enum literals and Zod constraints are generated from these
+            serde_rename: Option<&'a str>,
+            validator_attributes: Option<&'a ValidatorAttributes>,
         }
 
         // Sort by name for deterministic ordering
@@ -205,8 +281,11 @@ impl GenerationCache {
                         rust_type: &f.rust_type,
                         is_optional: f.is_optional,
                         is_public: f.is_public,
+                        serde_rename: f.serde_rename.as_deref(),
+                        validator_attributes: f.validator_attributes.as_ref(),
                     })
                     .collect(),
+                serde_rename_all: s.serde_rename_all.map(|rule| format!("{:?}", rule)),
             })
             .collect();
 
